@@ -36,11 +36,16 @@ package jsonrpc
 //@   props C11
 //@   arith int
 //@   nosafe
-//@   modifies *
+//@   modifies maps
 //@   assigns calls_parseParam, arg_parseParam_param, arg_parseParam_t
 //@   logged
 //@   sets buildOK = (result1 == nil)
 //@   sets builtArgs = result0
+//@   loop 1: invariant own_args: fresh(args)
+//@   loop 2: invariant own_args: fresh(args)
+//@   loop 3: invariant own_args: fresh(args)
+//@   loop 4: invariant own_args: fresh(args)
+//@   loop 5: invariant own_keys: fresh(remainingKeys)
 //@   callsite errors.New@3: missing_only_if_absent: !found && !configuredParam.Optional
 //@   callsite reflect.New@1: zero_only_if_absent: !found && configuredParam.Optional
 //@   callsite parseParam@2: positional_as_sent: $1 == param
